@@ -609,3 +609,45 @@ theorem C05_fallback_any_schedule {cfg : Cfg} {srv : Server} (env : Version → 
   · intro cf h0 reqs s hr hf r hres
     exact (C05_pipeline_refines_fifo cf (env v).pol h0 reqs s hr).2.2 r hf hres
 
+/-! ## the pipelined batch when the stream ends with a status
+
+`Pipe.step` has the stream end (`streamEnd c`), after which `Send` returns io.EOF (`reqSendEOF`, marker
+`Pipe.codeEOF`) and `Recv`, once nothing is left to deliver, returns the status (`rcvStatus`).  Which of the two
+error channels main's `select` reads first is the label (`mainReadSend` / `mainReadRecv`). -/
+
+/-- Where a returned error can come from, in every interleaving: unless a Send/Recv failed by itself (timeout,
+    broken connection), the error is the sequential conversation's, or the status the stream ended with, or
+    the Send's io.EOF after the stream ended.  So the ONLY way the status of an ended stream is lost is the
+    Send's io.EOF being read first — and files are never affected (`C05_pipeline_refines_fifo`). -/
+theorem C05_pipeline_error_provenance (closeFixed : Bool) (pol : Policy) (h0 : History) (reqs : List Request)
+    (s : Pipe.PState) (e : Err)
+    (hr : LTS.Reachable (Pipe.step closeFixed (Pipe.idealAnswers pol h0 reqs)) (Pipe.init reqs.length) s)
+    (hres : s.result = some (.error e)) :
+    s.timeoutFault = true ∨ (e.code = Pipe.codeEOF ∧ s.ended.isSome = true) ∨ s.ended = some e.code ∨
+      (execBatch pol h0 reqs).2 = .error e := by
+  have hlen := Pipe.idealAnswers_length pol reqs h0
+  rw [← hlen] at hr
+  have hi := Pipe.pinv_reachable closeFixed _ s hr
+  rw [Pipe.execBatch_eq_collect]
+  exact hi.result_err2 e hres
+
+/-- The batch-level masking exists in the code as it is (kernel-evaluated schedules on one request): the
+    stream is refused with Unimplemented before the first Send, the Send returns io.EOF, no token is released,
+    the function returns the Send's io.EOF — not the status.  With two requests and the first Send through, both
+    channels hold an error and the `select` decides: reading the receiver's first yields Unimplemented,
+    reading the requester's first yields io.EOF.  (This is what makes the repo's
+    Test_client_UnimplementedErrors flaky: it calls a batch as the FIRST call on a refused stream.  The
+    resolver never does: `C05_fallback_any_schedule`.) -/
+theorem C05_original_send_eof_masks_status :
+    (LTS.run (Pipe.step true [.files []]) (Pipe.init 1)
+      [.streamEnd 12, .reqSendEOF, .mainReadSend, .rcvCancelled, .mainJoin]).map
+        (fun s => (s.result.map fun r => match r with | .ok _ => 0 | .error e => e.code, s.ended)) =
+      some (some Pipe.codeEOF, some 12) ∧
+    (LTS.run (Pipe.step true [.files [], .files []]) (Pipe.init 2)
+      [.reqSend, .reqSignal, .streamEnd 12, .rcvTake, .rcvStatus, .reqSendEOF, .mainReadRecv, .mainJoin]).map
+        (fun s => s.result.map fun r => match r with | .ok _ => 0 | .error e => e.code) = some (some 12) ∧
+    (LTS.run (Pipe.step true [.files [], .files []]) (Pipe.init 2)
+      [.reqSend, .reqSignal, .streamEnd 12, .rcvTake, .rcvStatus, .reqSendEOF, .mainReadSend, .mainJoin]).map
+        (fun s => s.result.map fun r => match r with | .ok _ => 0 | .error e => e.code) = some (some Pipe.codeEOF) := by
+  decide
+
